@@ -634,7 +634,7 @@ func checkC19Enforcement(c *Ctx) {
 					if neg {
 						slot = 1
 					}
-					matchTrue[edge{b.Index, slot}] = true
+					matchTrue[edge{b.Index, slot, 0}] = true
 				}
 			}
 			label := fnName(f) + ": loop over " + l.field
